@@ -16,7 +16,7 @@ STOREFAIL = [Raises("Exception", mode="may", anysub=True, when="flag('store_fail
 
 
 def register(db):
-    db.symbolic_classes.update({"RetryPolicyT", "ConverterT"})
+    db.symbolic_classes.update({"RetryPolicyT"})
     db.shape("_Processor", {"_conn": "Connection", "_processed": "int"})
     db.ufun("policy", ["RetryPolicyT", "int"], "timedelta")
 
